@@ -143,7 +143,8 @@ type Result struct {
 	ViolationCount  int64             `json:"violation_count"`
 	ViolationKeys   map[string]int64  `json:"violation_keys"`
 	Inconclusive    []string          `json:"inconclusive"`
-	Exhaustive      map[string]bool   `json:"exhaustive"`
+	Exhaustive      map[string]bool   `json:"exhaustive"`       // named parts of the case space that were enumerated completely
+	FullyExhaustive bool              `json:"fully_exhaustive"` // the whole (finite) case space of the check was enumerated
 	Notes           map[string]string `json:"notes"`
 	WallS           float64           `json:"wall_s"`
 	Done            bool              `json:"done"`
